@@ -440,6 +440,132 @@ pub fn run_flood(c: &FloodCase) -> Outcome {
 	o
 }
 
+// ---------------------------------------------------------------------------------------------
+// Extreme throttle values: "for all throttle durations"
+
+#[derive(Clone, Debug, Serialize, Deserialize)]
+pub struct ExtremeCase {
+	/// 0 Duration::MAX, 1 from_secs(u64::MAX), 2 from_secs(2^40), 3 one hour, 4 from_nanos(1)
+	pub throttle: u8,
+	/// set through Config::throttle after start-up instead of before
+	pub at_run_time: bool,
+	pub normals: u8,
+	pub urgent_after_ms: u16,
+}
+
+fn extreme_duration(k: u8) -> std::time::Duration {
+	use std::time::Duration;
+	match k % 5 {
+		0 => Duration::MAX,
+		1 => Duration::from_secs(u64::MAX),
+		2 => Duration::from_secs(1 << 40),
+		3 => Duration::from_secs(3600),
+		_ => Duration::from_nanos(1),
+	}
+}
+
+pub fn run_extreme(c: &ExtremeCase) -> Outcome {
+	use std::sync::{Arc, Mutex};
+	use std::time::{Duration, Instant};
+	use watchexec_events::Priority;
+	let mut o = Outcome::pass();
+	o.nontrivial = true;
+	let d = extreme_duration(c.throttle);
+	let long = c.throttle % 5 != 4;
+	o.label(format!("throttle:{}", ["Duration::MAX", "u64::MAX s", "2^40 s", "1 h", "1 ns"][(c.throttle % 5) as usize]));
+	let rt = tokio::runtime::Builder::new_multi_thread().worker_threads(2).enable_all().build().unwrap();
+	let (entries, main_state, t_urgent_us): (Vec<(u64, Vec<Option<u32>>)>, String, u64) = rt.block_on(async {
+		let t0 = Instant::now();
+		let us = move || t0.elapsed().as_micros() as u64;
+		let config = watchexec::Config::default();
+		if !c.at_run_time {
+			config.throttle(d);
+		}
+		let entries: Arc<Mutex<Vec<(u64, Vec<Option<u32>>)>>> = Arc::new(Mutex::new(Vec::new()));
+		{
+			let entries = entries.clone();
+			config.on_action(move |mut action| {
+				let ids: Vec<Option<u32>> = action.events.iter().map(crate::wxrun::id_of).collect();
+				let quit = ids.contains(&Some(QUIT_ID));
+				entries.lock().unwrap().push((us(), ids));
+				if quit {
+					action.quit();
+				}
+				action
+			});
+		}
+		let wx = watchexec::Watchexec::with_config(config).expect("with_config");
+		let mut main = wx.main();
+		if c.at_run_time {
+			tokio::time::sleep(Duration::from_millis(20)).await;
+			wx.config.throttle(d);
+			tokio::time::sleep(Duration::from_millis(20)).await;
+		}
+		for k in 0..u32::from(c.normals.clamp(1, 3)) {
+			let _ = wx.send_event(crate::wxrun::make_event(k, 0), Priority::Normal).await;
+			tokio::time::sleep(Duration::from_millis(5)).await;
+		}
+		tokio::time::sleep(Duration::from_millis(u64::from(c.urgent_after_ms))).await;
+		let t_urgent_us = us();
+		let _ = wx.send_event(crate::wxrun::make_event(100, 0), Priority::Urgent).await;
+		// wait for the flush (bounded), watching the main task
+		let until = Instant::now() + Duration::from_secs(3);
+		let mut main_state = "running".to_string();
+		while Instant::now() < until {
+			if entries.lock().unwrap().iter().any(|(_, ids)| ids.contains(&Some(100))) {
+				break;
+			}
+			if main.is_finished() {
+				main_state = format!("ended by itself: {:?}", (&mut main).await);
+				break;
+			}
+			tokio::time::sleep(Duration::from_millis(5)).await;
+		}
+		if main_state == "running" {
+			let _ = tokio::time::timeout(Duration::from_secs(2), wx.send_event(crate::wxrun::make_event(QUIT_ID, 0), Priority::Urgent)).await;
+			if tokio::time::timeout(Duration::from_secs(5), &mut main).await.is_err() {
+				main.abort();
+				main_state = "hang".into();
+			}
+		}
+		let e = entries.lock().unwrap().clone();
+		(e, main_state, t_urgent_us)
+	});
+	rt.shutdown_timeout(Duration::from_millis(200));
+	let dump = || format!("\ncase {c:?} (throttle {d:?})\nurgent sent at {t_urgent_us} µs; handler entries {entries:?}; main: {main_state}");
+	if main_state != "running" {
+		o.fail("extreme-throttle:main-ended-or-hung", format!("the main task did not survive until the quit: {main_state}{}", dump()));
+		return o;
+	}
+	let Some((at, ids)) = entries.iter().find(|(_, ids)| ids.contains(&Some(100))) else {
+		o.fail("urgent-not-flushed", format!("the urgent event was not handed over within 3 s{}", dump()));
+		return o;
+	};
+	if long {
+		// nothing can have been delivered before the urgent event, and it flushes everything pending
+		if let Some((_, early)) = entries.iter().find(|(t, _)| *t < t_urgent_us) {
+			o.fail("delivered-before-window-elapsed", format!("batch {early:?} handed over before the urgent event although the window is practically infinite{}", dump()));
+			return o;
+		}
+		for k in 0..u32::from(c.normals.clamp(1, 3)) {
+			if !ids.contains(&Some(k)) {
+				o.fail("urgent-flush-incomplete", format!("event {k} was pending when the urgent event arrived but is not in the flushed batch{}", dump()));
+				return o;
+			}
+		}
+	}
+	if *at > t_urgent_us + 2_000_000 {
+		o.fail("urgent-not-flushed", format!("urgent event handled {} µs after it was sent{}", at - t_urgent_us, dump()));
+	}
+	o
+}
+
+fn extreme_strategy() -> BoxedStrategy<ExtremeCase> {
+	(0u8..5, any::<bool>(), 1u8..4, prop_oneof![Just(0u16), Just(20), Just(120)])
+		.prop_map(|(throttle, at_run_time, normals, urgent_after_ms)| ExtremeCase { throttle, at_run_time, normals, urgent_after_ms })
+		.boxed()
+}
+
 fn flood_strategy() -> BoxedStrategy<FloodCase> {
 	(
 		prop_oneof![Just(0u16), Just(30), Just(100), Just(250)],
@@ -481,4 +607,14 @@ pub fn check(e: &Engine) {
 		&run_flood,
 	);
 	e.require_label("rejected-flood", "flood>1000-events", 0.8);
+	e.explore(
+		"extreme-throttle",
+		LegOpts::realtime(
+			e.tier.pick(40, 400),
+			8,
+			"throttle Duration::MAX / u64::MAX s / 2^40 s / 1 h / 1 ns, set before start or at run time; 1-3 accepted events, then an urgent one 0-120 ms later: nothing is handed over before the urgent event (long windows), the urgent event flushes everything pending within 2 s, the main task neither ends nor hangs",
+		),
+		&extreme_strategy,
+		&run_extreme,
+	);
 }
